@@ -48,12 +48,19 @@ from krrood.entity_query_language.predicate import Symbol
 
 @dataclass(eq=False)
 class Owner(Symbol):
-    pass
+    """user classes may define __len__ / __bool__: a live instance can be falsy"""
+    size: int = 1
+
+    def __len__(self):
+        return self.size
 
 
 @dataclass(eq=False)
 class Elem(Symbol):
-    pass
+    size: int = 1
+
+    def __len__(self):
+        return self.size
 
 
 @dataclass
@@ -96,8 +103,13 @@ def setup(vm, kind):
         o.fields["add_to_graph"] = Builtin("add_to_graph", lambda it2, fr, a2, k2: rel.append((src, tgt, inferred, field)))
         return o
     vm.spec.stubs["PropertyDescriptorRelation.__call__"] = relation_ctor
-    owner = vm.alloc(Owner, {}, tag="owner")
-    elems = {n: vm.alloc(Elem, {}, tag=n) for n in ("e1", "e2", "a", "b", "c")}
+    # every instance is as large as it likes (possibly empty, i.e. falsy): one symbolic size for the owner, one for the elements
+    from pyvc.values import SInt
+    osz, esz = ctx.fresh_int("owner_size", register=True), ctx.fresh_int("element_size", register=True)
+    ctx.assume(osz >= 0)
+    ctx.assume(esz >= 0)
+    owner = vm.alloc(Owner, {"size": SInt(osz)}, tag="owner")
+    elems = {n: vm.alloc(Elem, {"size": SInt(esz)}, tag=n) for n in ("e1", "e2", "a", "b", "c")}
     Named = cls(vm, "pyvc_synth_c16", "Named")
     elems["n1"] = vm.alloc(Named, {"name": "same"}, tag="n1")
     elems["n1_twin"] = vm.alloc(Named, {"name": "same"}, tag="n1_twin")
@@ -248,12 +260,12 @@ def h_any_length(kind, op):
         cont, c0 = contents(vm, owner)
         data = cont.fields["__data__"]
         Elem = cls(vm, "pyvc_synth_c16", "Elem")
-        earlier = vm.alloc(Elem, {}, tag="added-by-an-earlier-iteration")
+        earlier = vm.alloc(Elem, {"size": 1}, tag="added-by-an-earlier-iteration")
 
         def element(it, i):
             # an arbitrary iteration starts from an arbitrary container: empty (first iteration) or already filled
             data.items[:] = [earlier] if it.ctx.choice(2, "container-already-has-elements?") == 1 else []
-            return it.alloc(Elem, {}, tag="arbitrary-element")
+            return it.alloc(Elem, {"size": 1}, tag="arbitrary-element")
         source = SymStream("assigned-elements", element, length=ctx.fresh_int("n_source"))
         if op == "assign":
             vm.spec.stubs["krrood.entity_query_language.utils:make_list"] = lambda it, a, k: source if a[0] is source else INLINE
